@@ -235,6 +235,11 @@ fn c02_c05_assembly(rep: &mut Rep) {
                 rep.check("C02.choice_from.no_constraints_invented", c.constraints.is_empty(), desc);
                 rep.check("C05.choice_from.marker_iff_extensible", c.extensible.is_some() == marker, desc);
                 if marker { rep.check("C05.choice_from.index_is_root_len", c.extensible == Some(n_root), desc); }
+                // additions numbered above the root, and (second pass) below it: the numbers must not influence the order
+                for low in [false, true] {
+                let e = Enumerated::from(((0..n_root).map(|i| enumeral(&format!("r{i}"), 10 * i as i128)).collect::<Vec<_>>(), mk(), n_add.map(|k| (0..k).map(|i| enumeral(&format!("a{i}"), if low { 1 + i as i128 } else { (100 + i) as i128 })).collect::<Vec<_>>())));
+                rep.check("C05.enumerated_from.items_from_the_index_on_are_the_additions", e.members.iter().skip(n_root).map(|m| m.name.clone()).collect::<Vec<_>>() == names[n_root.min(names.len())..].to_vec(), desc);
+                }
                 let e = Enumerated::from(((0..n_root).map(|i| enumeral(&format!("r{i}"), i as i128)).collect::<Vec<_>>(), mk(), n_add.map(|k| (0..k).map(|i| enumeral(&format!("a{i}"), (n_root + i) as i128)).collect::<Vec<_>>())));
                 rep.check("C02.enumerated_from.members_in_order", e.members.iter().map(|m| m.name.clone()).collect::<Vec<_>>() == names, desc);
                 rep.check("C02.enumerated_from.no_constraints_invented", e.constraints.is_empty(), desc);
